@@ -636,7 +636,7 @@ func (c *Ctx) runInlined(ft *ast.FuncType, body *ast.BlockStmt, sub, st *State) 
 
 // ---------- abstraction of unmodelled calls ----------
 
-var purePkgs = map[string]bool{"fmt": true, "errors": true, "strings": true, "math": true, "math/bits": true, "strconv": true, "unicode/utf8": true, "sort": false,
+var purePkgs = map[string]bool{"fmt": true, "errors": true, "strings": true, "math": true, "math/bits": true, "strconv": true, "unicode/utf8": true, "encoding/binary": true, "sort": false,
 	"google.golang.org/protobuf/reflect/protoreflect": true, "google.golang.org/protobuf/runtime/protoimpl": true}
 
 func (c *Ctx) abstractCall(x *ast.CallExpr, fn *types.Func, st *State) []Val {
